@@ -9,6 +9,20 @@ import numpy as np
 
 from .common import Run, bool_s, frac_s, guarded, list_s, opt_s
 
+META = {
+    "claimed": True,
+    "text": "Lean 4 theorems (unbounded in array length, bounds, pads, scales, point magnitudes) about a "
+    "hand model of the ROI helpers: normalisation selects the same elements, 3-way intersection law, "
+    "shape/empty/full/centre/pad, scale down-up, region from points (containment, within image, alignment, "
+    "non-finite points ignored, no magnitude bound).  The model is tied to /repo on every run by an exact "
+    "behavioural correspondence (exhaustive on small lengths, random large) and the numpy-based property "
+    "oracle; Spec/PySlice is itself validated against numpy each run.",
+    "note": "Trusted: Lean kernel + {propext, Classical.choice, Quot.sound}; numpy slicing as the reference "
+    "semantics; step != None slices are passed through by the library and not modelled.",
+    "technique": "Lean 4 proof over hand model + exhaustive/random differential correspondence with real code",
+    "design_ref": "DESIGN.md §4 C17",
+}
+
 
 def enc(s) -> str:
     if isinstance(s, int):
@@ -313,7 +327,7 @@ def replay(R: Run, rec) -> int:
     R.proof_stage()
     if "line" in case:
         line = case["line"]
-        print("model:", __import__("harness.common", fromlist=["run_driver"]).run_driver([line]))
+        print("model:", __import__("harness.common", fromlist=["run_driver"]).run_driver("C17", [line]))
     if rec.get("key") == "normalise-selects-different-elements":
         n = case["n"]
         _, a, b = case["s"].split(":")
